@@ -20,56 +20,78 @@ def parse_prefix(out: str) -> list[int] | None:
     return [int(x) for x in re.findall(r"\d+", m.group(1))]
 
 
+def parse_failed(out: str) -> list[tuple[int, int, str]] | None:
+    i = out.find('"FAILED"')
+    if i < 0:
+        return None
+    seg = out[i:]
+    j = seg.find("Model checking completed")
+    if j > 0:
+        seg = seg[:j]
+    return [(int(a), int(b), c) for a, b, c in re.findall(r'<<\s*(\d+),\s*(\d+),\s*"(\w+)"\s*>>', seg)]
+
+
 class TraceVerdict:
     def __init__(self) -> None:
         self.accepted = 0
-        self.rejected: list[dict] = []      # {trace, at, event, prev}
-        self.violated: list[str] = []       # invariant / property names TLC reported
+        self.rejected: list[dict] = []      # conformance: {trace, at, len, event, prev, meta}
+        self.failed: list[dict] = []        # property formulas false: {trace, at, formula, meta}
         self.events = 0
         self.states = 0
         self.wall = 0.0
         self.machinery: str | None = None   # TLC itself failed
         self.tlc_out = ""
+        self.ntraces = 0
 
 
-def validate(prog: dict, traces: list[dict], invariants=(), properties=(), consts: dict | None = None,
+def validate(prog: dict, traces: list[dict], check_props=(), consts: dict | None = None,
              root: str = "Trace_Engine", keep_dir: bool = False, extra_program: dict | None = None,
-             timeout: int = 1800) -> TraceVerdict:
+             timeout: int = 3000) -> TraceVerdict:
     v = TraceVerdict()
+    v.ntraces = len(traces)
     if not traces:
         return v
     rd = tlc.new_rundir("tr-" + prog["name"])
     try:
         tf = os.path.join(rd, "traces.json")
-        tlc.write_traces(tf, traces)
+        tlc.write_traces(tf, [{"events": t["events"]} for t in traces])
         c = dict(TRACE_CONSTS)
         c.update(consts or {})
-        cfg = tlc.cfg_text(c, init="TraceInit", next_="TraceNext", invariants=invariants, properties=properties,
-                           constraints=["Progress"], postcondition="Accepted")
-        r = tlc.run_tlc(rd, root, cfg, workers=1, env={"TRACE_FILE": tf}, program_tla=to_tla(prog, extra_program),
+        cfg = tlc.cfg_text(c, init="TraceInit", next_="TraceNext", constraints=["Progress"],
+                           action_constraints=["CheckActions"], postcondition="Accepted")
+        extra = dict(extra_program or {})
+        extra["CheckProps"] = "{" + ", ".join('"%s"' % p for p in check_props) + "}"
+        r = tlc.run_tlc(rd, root, cfg, workers=1, env={"TRACE_FILE": tf}, program_tla=to_tla(prog, extra),
                         timeout=timeout)
         v.wall = r.wall
         v.states = r.distinct
         v.tlc_out = r.out
         v.events = sum(len(t["events"]) for t in traces)
-        v.violated = list(r.violated)
         pref = parse_prefix(r.out)
-        if pref is None or len(pref) != len(traces):
-            if not v.violated:
-                v.machinery = "TLC produced no acceptance register:\n" + r.out[-3000:]
+        failed = parse_failed(r.out)
+        if pref is None or len(pref) != len(traces) or failed is None or r.errors:
+            v.machinery = "TLC did not complete the batch:\n" + "\n".join(r.errors) + "\n" + r.out[-3000:]
             return v
         for i, (p, t) in enumerate(zip(pref, traces)):
             n = len(t["events"])
             if p == n + 1:
                 v.accepted += 1
             else:
-                # p = index (1-based) of the first event that no specification action explains
                 ev = t["events"][p - 1] if p - 1 < n else None
                 prev = t["events"][p - 2] if p >= 2 else None
                 v.rejected.append({"trace": i, "at": p, "len": n, "event": ev, "prev": prev, "meta": t.get("meta")})
-        if r.errors and not v.rejected and not v.violated:
-            v.machinery = "\n".join(r.errors) + "\n" + r.out[-2000:]
+        for (ti, pos, name) in failed:
+            t = traces[ti - 1]
+            v.failed.append({"trace": ti - 1, "at": pos, "formula": name, "meta": t.get("meta")})
         return v
     finally:
         if not keep_dir:
             shutil.rmtree(rd, ignore_errors=True)
+
+
+def state_at(trace: dict, pos: int) -> dict | None:
+    """Projected state after consuming events[:pos-1] (pos as recorded for state formulas)."""
+    for e in reversed(trace["events"][:max(0, pos - 1)]):
+        if "s" in e:
+            return e["s"]
+    return None
